@@ -128,6 +128,12 @@ class World(object):
                 vt = bdd.tt_var(self.vars.index(var), self.nv)
                 self._add(o, a[1], (vt & b[2]) | (self.full & ~vt & a[2]))
                 self.flags.add('diagram built directly from nodes')
+        elif kind == 'shannon':
+            # the same function again, bottom-up through BDDNode with run-time label strings
+            a = self.pool[op[1] % n]
+            node = bdd.shannon_build(BDDNode, a[2], self.vars, self.orders[a[1]], fresh=bool(op[2]))
+            self._add(OBDD(node, list(self.orders[a[1]])), a[1], a[2])
+            self.flags.add('diagram built directly from nodes')
         elif kind == 'inv':
             a = self.pool[op[1] % n]
             self._add(~a[0], a[1], self.full & ~a[2])
@@ -337,6 +343,10 @@ def machine_shard(st, shard, nshards, payload):
         def compose_from_nodes(self, i, j, vi, unchecked):
             self._do(['node', i, j, vi, unchecked])
 
+        @rule(i=idx, fresh=hs.booleans())
+        def rebuild_by_shannon_expansion(self, i, fresh):
+            self._do(['shannon', i, fresh])
+
         @rule(i=idx)
         def invert(self, i):
             self._do(['inv', i])
@@ -441,7 +451,8 @@ def run(ctx):
     ctx.rule = ('Hypothesis rule-based machines; each draws a variable set (3-5 variables; plain, underscore/unicode, very '
                 'long names) and two orderings of it sharing the '
                 'global node table and runs up to N steps of parse (3 styles) / lambda parse / & | ^ '
-                '/ ~ / restrict / print every live diagram / Shannon composition directly from BDDNode objects (with and without check_ordering) / '
+                '/ ~ / restrict / print every live diagram / rebuild a pool entry by Shannon expansion through BDDNode with '
+                'run-time label strings / Shannon composition directly from BDDNode objects (with and without check_ordering) / '
                 'rebuild from str / alias / drop / drop-all-but-one / gc.collect / '
                 'hold an inner node while dropping its OBDD / release held nodes / re-create a dropped '
                 'function from its minterm form.  The model of each '
